@@ -273,6 +273,10 @@ class FsFaults:
                 os._exit(CRASH_CODE)
             if act[0] == "error":
                 raise OSError(act[1], os.strerror(act[1]))
+            if act[0] == "short-silent":
+                # write(2) may legitimately store fewer bytes than asked and say so only through its return value
+                n = min(act[1], len(data))
+                return real_write(fd, bytes(data)[:n]) if n else 0
             if act[0] in ("crash-after-bytes", "short-then-error"):
                 n = min(act[1] if act[0] == "crash-after-bytes" else act[2], len(data))
                 real_write(fd, bytes(data)[:n])
